@@ -4,6 +4,7 @@ import (
 	"go/token"
 	"go/types"
 	"sort"
+	"strings"
 
 	"golang.org/x/tools/go/ssa"
 )
@@ -88,7 +89,10 @@ type lockInfo struct {
 }
 
 // LocksIn computes must-hold sets for fn given the set held on entry.
-func LocksIn(fn *ssa.Function, entry lockSet) *lockInfo {
+func LocksIn(fn *ssa.Function, entry lockSet) *lockInfo { return locksInMode(fn, entry, 0) }
+
+// locksInMode: mode 0 counts Lock and RLock alike; mode 1 only RLock/RUnlock (shared holds); mode 2 only Lock/Unlock.
+func locksInMode(fn *ssa.Function, entry lockSet, mode int) *lockInfo {
 	in := map[*ssa.BasicBlock]lockSet{}
 	out := map[*ssa.BasicBlock]lockSet{}
 	info := &lockInfo{at: map[ssa.Instruction]lockSet{}}
@@ -106,7 +110,14 @@ func LocksIn(fn *ssa.Function, entry lockSet) *lockInfo {
 			info.at[ins] = cur.clone()
 			switch x := ins.(type) {
 			case *ssa.Call:
-				if k, d := mutexOp(&x.Call); d > 0 {
+				k, d := mutexOp(&x.Call)
+				if d != 0 && mode != 0 {
+					shared := strings.HasPrefix(x.Call.StaticCallee().Name(), "R")
+					if (mode == 1) != shared {
+						d = 0
+					}
+				}
+				if d > 0 {
 					cur[k] = true
 				} else if d < 0 {
 					delete(cur, k)
